@@ -1299,13 +1299,15 @@ def run_legacy(ctx, cuqi, idx, rs, thorough, stats):
 
     ar_ops = {n: [] for n in par_names}
     ar_last = {n: [] for n in par_names}
-    orig_alloc = G._allocate_samples
+    orig_alloc = getattr(G, "_allocate_samples", None)
+    ar_on = orig_alloc is not None        # (without the hook the array tie is skipped, the column tie of `lg` remains)
 
     def alloc(Ns_):
         for n in par_names:
             ar_ops[n].append(f"A{int(Ns_)}")
         return orig_alloc(Ns_)
-    G._allocate_samples = alloc
+    if ar_on:
+        G._allocate_samples = alloc
 
     def get_init():
         had = hasattr(G, "samples")
@@ -1471,7 +1473,7 @@ def run_legacy(ctx, cuqi, idx, rs, thorough, stats):
                 # a difference that comes with a failing input of the stored-clause is reported under that key
                 ctx.disagree(f"{K}:stored" + ("" if f"{K}:stored" in state["fails"] else ":array"), dict(desc, block=n, ops=ar_ops[n][:40]), out[:300], want_[:300],
                              "the block's sample array (allocation / continuation by hstack / column writes / last column) differs from the model's")
-        if ar_ops[n]:
+        if ar_ops[n] and ar_on:
             ar_pend.append((f"ar {dims[n]} " + ";".join(ar_ops[n]), after_ar))
     return ar_pend + [(line, compare_legacy),
             (tg_line(roles["__graph__"]),
@@ -1492,7 +1494,7 @@ def run_graph(ctx, cuqi, idx, rs, thorough, stats):
     from cuqi.experimental.mcmc import HybridGibbs, MH
     import cuqi.sampler as LS
     pool = ["a", "b", "c", "u", "w", "z", "ab", "a0", "b_s", "zz", "c1"]
-    k = int(rs.randint(3, 7))
+    k = int(rs.randint(3, 10 if thorough else 7))
     names = [pool[i] for i in rs.permutation(len(pool))[:k]]
     dims = {n: int(rs.randint(1, 4)) for n in names}
     use_gamma = rs.rand() < 0.4
